@@ -110,7 +110,7 @@ def run(chk):
     tmp = tempfile.mkdtemp(prefix="verif_c16_")
     L = loaders(tmp)
     try:
-        n = 25 if chk.tier == "quick" else 250
+        n = 25 if chk.tier == "quick" else 110
         made = 0
         while made < n:
             base = gen.gen_model(rng, max_demes=5)
